@@ -318,6 +318,8 @@ class Layout:
 
 def render_restriction(r, L, multiline):
     s = r["type"]
+    if r.get("both"):                      # C09 injection: wildcard and relation in one restriction
+        return s + (":*#" + r["both"] if L.rng.random() < 0.5 else "#" + r["both"] + ":*")
     if r["wild"]:
         s += ":*"
     elif r["rel"] is not None:
@@ -345,13 +347,15 @@ def render_expr(e, L):
     s = render_operand(e["first"], L)
     for o in e["rest"]:
         s += L.ws() + e["op"] + L.ws() + render_operand(o, L)
+    if e.get("mix"):                       # C09 injection: a different operator at the same level
+        s += L.ws() + e["mix"][0] + L.ws() + render_operand(e["mix"][1], L)
     return s
 
 
 def render_condition(c, L):
     ps = []
     for (p, cont, ty) in c["params"]:
-        t = f"{cont}<{ty}>" if cont else ty
+        t = (f"{cont}<{ty}>" if ty is not None else cont) if cont else ty
         ps.append(L.ows() + p + L.ows() + ":" + L.ows(" ") + t + L.ows())
     body_open = "{" + L.rng.choice([L.eol() + "  ", L.eol(), " ", ""]) if L.rng.random() < L.wild else "{" + L.eol() + "  "
     body_close = L.rng.choice([L.eol(), "", " "]) if (L.rng.random() < L.wild and "//" not in c["expr"]) else L.eol()
@@ -365,12 +369,19 @@ def render_file(f, L):
         out += L.rng.choice([" ", "\n", "  \n"])
     if f["header"][0] == "model":
         out += "model" + L.nl(2) + "schema" + L.ws() + f["header"][1] + L.ows()
-    else:
+    elif f["header"][0] == "module":
         out += "module" + L.ws() + f["header"][1] + L.ows()
-    for t in f["types"]:
-        out += L.nl(0)
-        if L.rng.random() >= L.wild:
-            out = out if out.endswith(L.eol() * 2) else out[:len(out)] + ""
+    elif f["header"][0] == "both":         # C09 injections
+        out += "model" + L.nl(2) + "schema" + L.ws() + "1.1" + L.nl(0) + "module" + L.ws() + "core" + L.ows()
+    elif f["header"][0] == "both2":
+        out += "module" + L.ws() + "core" + L.nl(0) + "model" + L.nl(2) + "schema" + L.ws() + "1.1" + L.ows()
+    else:
+        out = out.lstrip("\n ")
+        if not f["types"]:
+            out += "#"
+    for k, t in enumerate(f["types"]):
+        if not (k == 0 and f["header"][0] == "none"):
+            out += L.nl(0)
         out += ("extend" + L.ws() if t["extend"] else "") + "type" + L.ws() + t["name"]
         if t["rels"]:
             out += L.nl(2) + "relations"
